@@ -12,7 +12,9 @@
                          every element with the operations it consumed as context (`ctxOf`) — the
                          repair of D28, below;
     `readPatchDoc doc`   the same from the parsed JSON document of the patch text (`patchOpsOfJson`);
-    `readPointer s`      jd's JSON Pointer reader (`strconv.Atoi` on the tokens, `-` = append);
+    `readPointer s`      jd's JSON Pointer reader after the repair D30 (a token is an index only if it
+                         is `0` or digits without a leading zero; `-` = append; every other token a
+                         member name; a `~` not followed by `0`/`1` is an error);
     `writePointerPath`, `renderPatchOps d`   what `Diff.RenderPatch` writes; `patchM t d` = `t.Patch(d)`.
   Spec side: `eval t (ops.map PatchOp.toSpec)` (JdSpec/Rfc6902.lean), an evaluator of RFC 6902 written
   from the RFC, independent of jd; `parsePointer` (RFC 6901). Results are compared up to the Go dynamic
@@ -23,6 +25,13 @@
   the RFC 6902 evaluation of THE SAME operations on `t` succeeds with the same result. jd may be
   stricter, never more permissive or different. It is not restricted to jd's own output or to a
   grammar of variations: the quantifier is over all accepted operation lists.
+    `never_more_permissive_all_pointers`    THE STRONGEST FORM (after the repair of D30): no hypothesis
+                                            on the spelling of the pointer texts; only `NMP.idxTokensOK`
+                                            (index tokens below 2^53). Variants `_min`,
+                                            `_from_entry_point`, `checked_patch_…_all_pointers`;
+                                            `repaired_reader_is_injective` is why it holds. The
+                                            statements below with `canonPtr` are corollaries kept
+                                            under their former names;
     `never_more_permissive_rfc6901`         the pointer hypothesis stated with the independent RFC 6901
                                             parser, the range hypothesis in minimal form;
     `never_more_permissive_from_entry_point` from the parsed patch document (`readPatchDoc`);
@@ -52,18 +61,25 @@
                                                  longer read at all.
   (What the element loop ALONE does with these witnesses is kept in the proof file: `NMP.loop_alone_…`.)
 
-  OBSERVATIONS, NOT FINDINGS (section 4): RFC 6901 TOKEN SYNTAX. `readPointer` parses index tokens with
-  `strconv.Atoi` and unescapes with the jsonpointer library, both more lenient than RFC 6901: the
-  pointers `/01` (leading zero), slash-minus-one (a sign; jd reads it as "append") and `/~2` (an escape
-  the RFC does not allow) are accepted and applied by jd and rejected by the RFC
-  (`observation_noncanonical_index_tokens`, `observation_invalid_escape_accepted`). The property
-  quantifies over `RenderPatch` output and variations of its VALUES, INDICES, HUNKS and CONTEXT TESTS,
-  never over the spelling of a reference token, so these are outside its grammar. They are exactly
-  what the decidable hypothesis on the pointer TEXTS excludes, and it cannot be dropped
-  (`observation_canonical_pointers_needed`, `observation_pointers_not_canonical`):
-    `NMP.canonPtr s`          Bool: `readPointer s = .ok p`, `p` consists of keys and indices in
-                              [−1, 2^53), and `writePointerPath p` writes `s` back (the text is what
-                              jd itself writes);
+  A SECOND DEFECT, AND ITS REPAIR (D30; section 4): RFC 6901 TOKEN SYNTAX. `readPointer` parsed index
+  tokens with `strconv.Atoi` and unescaped with the jsonpointer library, both more lenient than RFC
+  6901: the pointers `/01` (leading zero), slash-minus-one (a sign; read as "append") and `/~2` (an escape
+  the RFC does not allow) were accepted and applied by jd and rejected by the RFC — jd MORE PERMISSIVE.
+  Formerly kept as observations outside the hypothesis `canonPtr`; now repaired in v2/pointer.go
+  (index only if `strconv.Itoa(number) == t`; `checkPointerEscapes`), the witnesses are regressions
+  (`fixed_noncanonical_index_tokens`, `fixed_index_token_reading`, `fixed_invalid_escape_rejected`,
+  `before_repair_readings_applied`, `fixed_pointers_not_canonical`, `fixed_canonical_pointers_witness`),
+  and the hypothesis on the pointer TEXTS is gone from the main statement:
+    `NMP.idxTokensOK s`       Bool: every reference token of `s` that is an RFC 6901 array index is below
+                              2^53 (the model's `int → float64` conversion is exact there; the same
+                              kind of hypothesis as `HunkRange`) — the ONLY pointer hypothesis left;
+    `NMP.ptrOKr s`            Bool: if `readPointer s = .ok p` then `p` consists of member names and
+                              indices in [−1, 2^53) and `NMP.wpL p` (the path token by token, number-like
+                              member names NOT refused) is `s`; follows from `idxTokensOK`
+                              (`repaired_reader_is_injective`) and from `canonPtr`;
+    `NMP.canonPtr s`          Bool, the FORMER hypothesis: `readPointer s = .ok p`, `p` consists of keys
+                              `writePointer` accepts and indices in [−1, 2^53), and `writePointerPath p`
+                              writes `s` back (the text is what jd itself writes);
     `NMP.canonicalPointer s`  Bool, in RFC 6901 terms only: `parsePointer` accepts `s` and every token
                               that `strconv.Atoi` accepts is the decimal text of an index in [0, 2^53);
                               it implies `canonPtr` (`canonical_pointer_rfc6901`).
@@ -128,7 +144,9 @@
        (the library's `Patch` = documented meaning of strict hunks) and of the RFC simulation;
     `NMP.valueOK o.value` (Bool): not the void marker, well-formed, list-mode — what `json.Unmarshal`
        produces (derived from the parsed document in `never_more_permissive_from_entry_point`);
-    `NMP.canonPtr o.path` / `NMP.canonicalPointer o.path`: see OBSERVATIONS; holds of jd's own output;
+    `NMP.idxTokensOK o.path`: see D30 above (the only pointer hypothesis of the `_all_pointers`
+       statements); `NMP.canonPtr o.path` / `NMP.canonicalPointer o.path`: the former, stronger
+       hypothesis of the corollaries under the former names; holds of jd's own output;
     `HunkRange h` for the elements read (indices written below 2^53: they travel through a float64);
        for accepted canonical patches it reduces to `i + |Remove| < 2^53`
        (`never_more_permissive_rfc6901`);
@@ -142,7 +160,7 @@
   NOT PROVED / OUTSIDE: the text layer around the operations (JSON decoding of the patch document is
   `json.Unmarshal`, external; `never_more_permissive_from_entry_point` starts from the parsed
   document); operations other than `test` / `remove` / `add` (the reader rejects them); pointer texts
-  in non-canonical spelling (observations above); set / multiset readings and the merge strategy (C10
+  with an array index token of 2^53 or more (outside the range of the model's index conversion); set / multiset readings and the merge strategy (C10
   is a list-mode property); the last sentence for a first document with a typed `jsonList` ELEMENT
   (false there: `typed_list_element_witness`; no reader produces such a node). The converse (jd accepts
   whatever the RFC accepts) is not claimed: jd may be stricter.
@@ -160,7 +178,8 @@ open Jd Jd.Spec Jd.PB
 
   Names of `Jd.NMP` are written qualified. -/
 
-/-- **C10, the main statement.** For EVERY list of operations `ops` (real values, pointer texts in the
+/-- **C10, the main statement in its former form** (hypothesis `canonPtr`; now a corollary of
+    `never_more_permissive_all_pointers` below, kept under its name). For EVERY list of operations `ops` (real values, pointer texts in the
     spelling jd writes) that `ReadPatchString` accepts, reading the diff `d`: on every document `t`, if
     `t.Patch(d)` succeeds with `r`, then the independent RFC 6902 evaluation of the same operations on
     `t` succeeds with the same result (up to the Go type of array nodes) -/
@@ -172,7 +191,90 @@ theorem never_more_permissive (L : FloatLaws) (F : FloatEq0) {ops : List PatchOp
     ∃ r', eval t (ops.map PatchOp.toSpec) = some r' ∧ untag r' = untag r :=
   NMP.readPatchOps_never_more_permissive L F hw hl hv hc hread hrange hp
 
-/-- the same with the hypothesis on the pointers in RFC 6901 terms only (`NMP.canonicalPointer`: the
+/-- **C10, the main statement WITHOUT a hypothesis on the spelling of the pointer texts** (after the
+    repair of D30). For EVERY list of operations `ops` that `ReadPatchString` accepts, on every
+    document `t`: if `t.Patch(d)` succeeds with `r`, the RFC 6902 evaluation of the same operations
+    succeeds with the same result. `NMP.canonPtr` is gone; what remains is `NMP.idxTokensOK o.path`
+    (Bool): every reference token that IS an RFC 6901 array index (`0`, or digits without a leading
+    zero) is below 2^53 — the range in which the model's `int → float64` conversion of an index is
+    exact, the same kind of hypothesis as `HunkRange`. Tokens such as `01`, `+1`, `-1`, `-0`, `007`,
+    the empty token and escaped names need no hypothesis: they are member names for jd and for
+    RFC 6902 alike; a text with an invalid `~` escape is never accepted -/
+theorem never_more_permissive_all_pointers (L : FloatLaws) (F : FloatEq0) {ops : List PatchOp}
+    {d : Diff} {t r : Json} (hw : t.wf = true) (hl : t.listDoc = true)
+    (hv : ∀ o ∈ ops, NMP.valueOK o.value = true)
+    (hidx : ∀ o ∈ ops, NMP.idxTokensOK o.path = true)
+    (hread : readPatchOps ops = .ok d) (hrange : ∀ h ∈ d, HunkRange h)
+    (hp : patchM t d = .ok r) :
+    ∃ r', eval t (ops.map PatchOp.toSpec) = some r' ∧ untag r' = untag r :=
+  NMP.readPatchOps_never_more_permissive_all_pointers L F hw hl hv hidx hread hrange hp
+
+/-- … with the range hypothesis on the elements read in minimal form (`i + |Remove| < 2^53`) -/
+theorem never_more_permissive_all_pointers_min (L : FloatLaws) (F : FloatEq0)
+    {ops : List PatchOp} {d : Diff} {t r : Json} (hw : t.wf = true) (hl : t.listDoc = true)
+    (hv : ∀ o ∈ ops, NMP.valueOK o.value = true)
+    (hidx : ∀ o ∈ ops, NMP.idxTokensOK o.path = true)
+    (hread : readPatchOps ops = .ok d)
+    (hafter : ∀ h ∈ d, ∀ i, lastIdx? h.path = some i → i + (h.remove.length : Int) < 2 ^ 53)
+    (hp : patchM t d = .ok r) :
+    ∃ r', eval t (ops.map PatchOp.toSpec) = some r' ∧ untag r' = untag r :=
+  NMP.readPatchOps_never_more_permissive_all_pointers_min L F hw hl hv hidx hread hafter hp
+
+/-- … from the entry point (the parsed JSON document of the patch) -/
+theorem never_more_permissive_all_pointers_from_entry_point (L : FloatLaws) (F : FloatEq0)
+    {doc : Json} {ops : List PatchOp} {d : Diff} {t r : Json} (hw : t.wf = true)
+    (hl : t.listDoc = true) (hdw : doc.wf = true) (hdl : doc.listDoc = true)
+    (hdv : Yaml.voidFree doc = true) (hdoc : patchOpsOfJson doc = .ok ops)
+    (hidx : ∀ o ∈ ops, NMP.idxTokensOK o.path = true)
+    (hread : readPatchDoc doc = .ok d) (hrange : ∀ h ∈ d, HunkRange h)
+    (hp : patchM t d = .ok r) :
+    ∃ r', eval t (ops.map PatchOp.toSpec) = some r' ∧ untag r' = untag r :=
+  NMP.readPatchDoc_never_more_permissive_all_pointers L F hw hl hdw hdl hdv hdoc hidx hread hrange hp
+
+/-- … with every hypothesis as ONE executable predicate (`NMP.checkedPatchAll`: real values, index
+    tokens below 2^53, accepted by `ReadPatchString`, indices written below 2^53) -/
+theorem checked_patch_never_more_permissive_all_pointers (L : FloatLaws) (F : FloatEq0)
+    {ops : List PatchOp} {t : Json} (hf : NMP.checkedPatchAll ops = true) (hw : t.wf = true)
+    (hl : t.listDoc = true) :
+    ∃ d, readPatchOps ops = .ok d ∧
+      ∀ r, patchM t d = .ok r →
+        ∃ r', eval t (ops.map PatchOp.toSpec) = some r' ∧ untag r' = untag r :=
+  NMP.checkedPatchAll_never_more_permissive L F hf hw hl
+
+/-- **why `canonPtr` could be dropped: the repaired reader is injective.** `NMP.ptrOKr s` (Bool): IF
+    `readPointer` accepts `s`, the path read consists of member names and indices in [−1, 2^53) and
+    writing it token by token (`NMP.wpL`: escaped member names — number-like ones included —,
+    decimal indices, `-`) gives `s` back. It holds of every text whose index tokens are below
+    2^53: a valid escape is re-escaped to itself, an index token is the canonical decimal text
+    of its index, every other token is a member name. (Before the repair `/01` and `/1` were read
+    to the same path.) -/
+theorem repaired_reader_is_injective {s : String} (h : NMP.idxTokensOK s = true) :
+    NMP.ptrOKr s = true :=
+  NMP.ptrOKr_of_idxTokens h
+
+/-- the former hypothesis implies the new one -/
+theorem canonical_pointer_is_reader_canonical {s : String} (h : NMP.canonPtr s = true) :
+    NMP.ptrOKr s = true :=
+  NMP.ptrOKr_of_canonPtr h
+
+/-- the fixed-point statement without `canonPtr`: re-rendering (jd's layout, pointers written by
+    `NMP.wpL`) the diff read gives the operations back -/
+theorem accepted_patch_is_faithful_all_pointers (F : FloatEq0) {ops : List PatchOp} {d : Diff}
+    (hv : ∀ o ∈ ops, o.value.isVoid = false) (hidx : ∀ o ∈ ops, NMP.idxTokensOK o.path = true)
+    (hread : readPatchOps ops = .ok d)
+    (happ : ∀ h ∈ d, lastIdx? h.path = some (-1) → h.remove = []) : NMP.Faithful d ops :=
+  NMP.readPatchOps_faithful_all_pointers F hv hidx hread happ
+
+/-- non-vacuity: the pointer slash-zero-one (outside `canonPtr`) satisfies `idxTokensOK`, and the
+    theorem speaks about an actual run: on `{}` jd's `Patch` of what was read from `add /01 "x"`
+    succeeds, and RFC 6902 evaluation agrees -/
+example (L : FloatLaws) (F : FloatEq0) :
+    NMP.idxTokensOK "/01" = true ∧ NMP.canonPtr "/01" = false ∧
+    ∃ r r', patchM (.obj []) NMP.w4Diff = .ok r ∧
+      eval (.obj []) (NMP.w4Ops.map PatchOp.toSpec) = some r' ∧ untag r' = untag r :=
+  ⟨NMP.idxTokensOK_01, NMP.fixed_pointers_not_canonical.1, NMP.ex_all_pointers L F⟩
+
+/-- the same (the former main statement) with the hypothesis on the pointers in RFC 6901 terms only (`NMP.canonicalPointer`: the
     independent parser accepts the text, and a token `strconv.Atoi` accepts is the decimal text of an
     index in [0, 2^53)) and the range hypothesis in minimal form: `i + |Remove|`, the index of the
     after-context line, is below 2^53 for every element read -/
@@ -524,46 +626,75 @@ theorem fixed_after_context_vs_coalesced_removals (L : FloatLaws) :
 theorem fixed_unrestricted_goal_witness : ¬ ∃ d, readPatchOps NMP.w1Ops = .ok d :=
   NMP.fixed_unrestricted_goal_witness
 
-/-! ## 4. Observations: RFC 6901 token syntax (outside the grammar the property quantifies over)
+/-! ## 4. Regressions of the repaired defect D30: RFC 6901 token syntax
 
   `NMP.w4Ops` = `add` at the pointer slash-zero-one, `NMP.w5Ops` = `add` at the pointer slash-minus-one,
-  `NMP.w6Ops` = `add` at the pointer slash-tilde-two, each with the value `"x"`; `NMP.w4Doc` = `["a","b"]`. -/
+  `NMP.w6Ops` = `add` at the pointer slash-tilde-two, each with the value `"x"`; `NMP.w4Doc` = `["a","b"]`.
+  `NMP.w4Diff`, `NMP.w5Diff`: what the REPAIRED reader builds (one hunk at the member name `01` / `-1`);
+  `NMP.w4DiffOld`, `NMP.w5DiffOld`, `NMP.w6DiffOld`: what the reader built BEFORE the repair (index 1, the
+  append index, the member tilde-two). -/
 
-/-- index tokens outside the RFC 6901 grammar (`strconv.Atoi` accepts a leading zero and a sign): jd
-    reads slash-zero-one as index 1 and inserts there, reads slash-minus-one as "append"; RFC 6902
-    rejects both patches -/
-theorem observation_noncanonical_index_tokens :
-    (readPatchOps NMP.w4Ops = .ok NMP.w4Diff ∧
-     (∃ r, patchM NMP.w4Doc NMP.w4Diff = .ok r ∧
-       untag r = .arr .raw [.str "a", .str "x", .str "b"]) ∧
-     eval NMP.w4Doc (NMP.w4Ops.map PatchOp.toSpec) = none) ∧
-    (readPatchOps NMP.w5Ops = .ok NMP.w5Diff ∧
-     (∃ r, patchM NMP.w4Doc NMP.w5Diff = .ok r ∧
-       untag r = .arr .raw [.str "a", .str "b", .str "x"]) ∧
-     eval NMP.w4Doc (NMP.w5Ops.map PatchOp.toSpec) = none) :=
-  NMP.observation_noncanonical_index_tokens
+/-- **D30, index tokens** (`strconv.Atoi` accepts a leading zero and a sign; RFC 6901 section 4 does
+    not). Before: jd read slash-zero-one as index 1 and slash-minus-one as "append" and applied both to
+    `["a","b"]`; RFC 6902 rejects both. Now: the tokens are MEMBER NAMES; the patches are read, jd's
+    `Patch` FAILS on the array as RFC 6902 does, and on the object `{}` jd and RFC 6902 both add the
+    member `01` / `-1` -/
+theorem fixed_noncanonical_index_tokens :
+    (readPatchOps NMP.w4Ops = .ok NMP.w4Diff ∧ patchM NMP.w4Doc NMP.w4Diff = .err ∧
+     eval NMP.w4Doc (NMP.w4Ops.map PatchOp.toSpec) = none ∧
+     (∃ r, patchM (.obj []) NMP.w4Diff = .ok r ∧ untag r = .obj [("01", .str "x")]) ∧
+     eval (.obj []) (NMP.w4Ops.map PatchOp.toSpec) = some (.obj [("01", .str "x")])) ∧
+    (readPatchOps NMP.w5Ops = .ok NMP.w5Diff ∧ patchM NMP.w4Doc NMP.w5Diff = .err ∧
+     eval NMP.w4Doc (NMP.w5Ops.map PatchOp.toSpec) = none ∧
+     (∃ r, patchM (.obj []) NMP.w5Diff = .ok r ∧ untag r = .obj [("-1", .str "x")]) ∧
+     eval (.obj []) (NMP.w5Ops.map PatchOp.toSpec) = some (.obj [("-1", .str "x")])) :=
+  NMP.fixed_noncanonical_index_tokens
 
-/-- an escape RFC 6901 does not allow (`~` not followed by 0 or 1 is kept as text): on `{}` jd adds
-    the member named tilde-two, RFC 6901 rejects the pointer -/
-theorem observation_invalid_escape_accepted :
-    readPatchOps NMP.w6Ops = .ok NMP.w6Diff ∧
-    (∃ r, patchM (.obj []) NMP.w6Diff = .ok r ∧ untag r = .obj [("~2", .str "x")]) ∧
+/-- what the repaired pointer reader makes of the tokens: `01`, `-1`, `+1`, `-0` are member names, `-`
+    alone is still the append index, `0` and `1` are indices -/
+theorem fixed_index_token_reading :
+    readPointer "/01" = .ok [.key "01"] ∧ readPointer "/-1" = .ok [.key "-1"] ∧
+    readPointer "/+1" = .ok [.key "+1"] ∧ readPointer "/-0" = .ok [.key "-0"] ∧
+    readPointer "/-" = .ok [.idx (-1)] ∧ readPointer "/0" = .ok [.idx 0] ∧
+    readPointer "/1" = .ok [.idx 1] :=
+  NMP.fixed_index_token_reading
+
+/-- **D30, escapes** (a `~` not followed by 0 or 1 was kept as text; RFC 6901 section 3 makes it an
+    error). Now: `readPointer` rejects slash-tilde-two and slash-a-tilde (`checkPointerEscapes`), the
+    patch `add` at slash-tilde-two is not read; RFC 6902 evaluation rejects it too -/
+theorem fixed_invalid_escape_rejected :
+    readPointer "/~2" = .err ∧ readPointer "/a~" = .err ∧ readPatchOps NMP.w6Ops = .err ∧
     eval (.obj []) (NMP.w6Ops.map PatchOp.toSpec) = none :=
-  NMP.observation_invalid_escape_accepted
+  NMP.fixed_invalid_escape_rejected
 
-/-- none of the three pointer texts is canonical (jd writes the three paths back as slash-one,
-    slash-dash and slash-tilde-zero-two): the hypothesis `canonPtr` excludes exactly these -/
-theorem observation_pointers_not_canonical :
+/-- what made D30 a defect (documentation of the behaviour before the repair): the diffs the
+    reader used to build from the three witnesses APPLY under jd's `Patch` where RFC 6902
+    evaluation of the operations fails -/
+theorem before_repair_readings_applied :
+    ((∃ r, patchM NMP.w4Doc NMP.w4DiffOld = .ok r ∧
+        untag r = .arr .raw [.str "a", .str "x", .str "b"]) ∧
+     eval NMP.w4Doc (NMP.w4Ops.map PatchOp.toSpec) = none) ∧
+    ((∃ r, patchM NMP.w4Doc NMP.w5DiffOld = .ok r ∧
+        untag r = .arr .raw [.str "a", .str "b", .str "x"]) ∧
+     eval NMP.w4Doc (NMP.w5Ops.map PatchOp.toSpec) = none) ∧
+    ((∃ r, patchM (.obj []) NMP.w6DiffOld = .ok r ∧ untag r = .obj [("~2", .str "x")]) ∧
+     eval (.obj []) (NMP.w6Ops.map PatchOp.toSpec) = none) :=
+  NMP.before_repair_readings_applied
+
+/-- none of the three pointer texts is canonical in the sense of `canonPtr` (the text jd itself
+    writes): `01` and `-1` are now member names that `writePointer` refuses, slash-tilde-two is not
+    read -/
+theorem fixed_pointers_not_canonical :
     NMP.canonPtr "/01" = false ∧ NMP.canonPtr "/-1" = false ∧ NMP.canonPtr "/~2" = false :=
-  NMP.observation_pointers_not_canonical
+  NMP.fixed_pointers_not_canonical
 
-/-- … and it cannot be dropped from the main statement (witness: the pointer slash-zero-one) -/
-theorem observation_canonical_pointers_needed :
-    ¬ (∀ (ops : List PatchOp) (d : Diff) (t r : Json), t.wf = true → t.listDoc = true →
-        (∀ o ∈ ops, NMP.valueOK o.value = true) →
-        readPatchOps ops = .ok d → (∀ h ∈ d, HunkRange h) → patchM t d = .ok r →
-        ∃ r', eval t (ops.map PatchOp.toSpec) = some r' ∧ untag r' = untag r) :=
-  NMP.observation_canonical_pointers_needed
+/-- the witness that showed `canonPtr` could not be dropped from the main statement (the pointer
+    slash-zero-one on `["a","b"]`) is no longer one: the patch is read, every other hypothesis
+    holds, and jd's `Patch` of what was read FAILS -/
+theorem fixed_canonical_pointers_witness :
+    readPatchOps NMP.w4Ops = .ok NMP.w4Diff ∧ (∀ h ∈ NMP.w4Diff, HunkRange h) ∧
+    ¬ ∃ r, patchM NMP.w4Doc NMP.w4Diff = .ok r :=
+  NMP.fixed_canonical_pointers_witness
 
 /-! ## Non-vacuity of sections 1 and 2
 
